@@ -284,6 +284,24 @@ func (w *w1World) Gen(rng *rand.Rand, property, tier string) (any, simrt.Sched) 
 			case 5: // remove the configuration
 				nv.Paths = append(nv.Paths[:k:k], nv.Paths[k+1:]...)
 			case 6: // add a configuration
+				if (strings.HasPrefix(p.Name, "~") || p.Name == "all_others") && rng.Intn(2) == 0 {
+					// a static entry for a name that this regular-expression entry serves so far, with
+					// the same settings: a live path of that name is taken over, not re-created
+					has := false
+					for _, q := range nv.Paths {
+						if q.Name == "r7" {
+							has = true
+						}
+					}
+					if !has {
+						cp := *p
+						cp.Name = "r7"
+						cp.Forward = append([]string(nil), p.Forward...)
+						cp.Hooks = append([]string(nil), p.Hooks...)
+						nv.Paths = append(nv.Paths, cp)
+						continue
+					}
+				}
 				cand := w1Pick(rng, "s2", "s3", "~^r([0-9]+)$", "~^(r|q)([0-9]+)$", "all_others", "r7")
 				dup := false
 				for _, q := range nv.Paths {
@@ -432,7 +450,33 @@ func (w *w1World) Gen(rng *rand.Rand, property, tier string) (any, simrt.Sched) 
 		}
 		addActor(a)
 	}
-	if len(b.Versions) > 1 {
+	if focus == "C15" && !always && rng.Intn(4) == 0 {
+		// take-over: a name served by the catch-all entry gets a static entry with the same settings
+		// at the instant its last client leaves (the path asks to be closed as idle while the path
+		// manager hands it over to the static entry)
+		v0 := w1Version{Users: b.Versions[0].Users}
+		for _, p := range b.Versions[0].Paths {
+			if p.Name == "s1" {
+				v0.Paths = append(v0.Paths, p)
+			}
+		}
+		catchAll := w1Path{Name: "all_others", Source: "publisher", StartTimeoutMs: 1000, CloseAfterMs: 1000, Override: true}
+		v0.Paths = append(v0.Paths, catchAll)
+		v1 := w1Version{Users: v0.Users, Paths: append([]w1Path(nil), v0.Paths...)}
+		st := catchAll
+		st.Name = "r7"
+		v1.Paths = append(v1.Paths, st)
+		b.Versions = []w1Version{v0, v1}
+		t := w1Pick[int64](rng, 100, 500, 1500)
+		cl := w1Actor{Kind: w1Pick(rng, "rd", "pub"), Path: "r7", Shape: "1phase", User: "admin", Pass: "adminpw", IP: "127.0.0.1", Formats: []int{0, 1}}
+		if cl.Kind == "rd" {
+			cl.Ops = []w1Op{{Op: "session", Ms: t}}
+		} else {
+			cl.Ops = []w1Op{{Op: "session", N: t / 10, Ms: 10}}
+		}
+		b.Actors = append(b.Actors, cl)
+		b.Actors = append(b.Actors, w1Actor{Kind: "reload", StartMs: t, Ops: []w1Op{{Op: "reload", N: 1}}})
+	} else if len(b.Versions) > 1 {
 		a := w1Actor{Kind: "reload", StartMs: w1Pick[int64](rng, 0, 50, 500, 3000)}
 		nre := 1 + rng.Intn(4)
 		for s := 0; s < nre; s++ {
